@@ -162,6 +162,9 @@ extern "C" void harness_run()
   so.stall_max_ns = 40000000; // up to 40 ms: longer than the small idle timeouts and than shutdown()'s grace sleeps
   so.stall_one_in = 2;
   sim::Config cfg = hx::draw_sched(so);
+  // a quarter of the runs: the thread that creates a worker is often descheduled for tens of milliseconds right after
+  // pthread_create, i.e. between the creation of a worker and its registration in the pool (longer than shutdown()'s grace sleeps)
+  if (sim::draw(4) == 0) { cfg.create_stall_permille = 600; cfg.stall_max_ns = 40000000; }
   sim::begin(cfg);
 
   w.pool = new ThreadPool(w.initial, w.maxSize, std::chrono::milliseconds(w.idle_ms), w.maxQueue,
